@@ -3,6 +3,7 @@
 # (quick, then thorough when quick stays silent) in scratch worktrees; appends one line per change to out.tsv.
 OUT=${1:-/verif/seeded/sweep.tsv}; shift
 cd /verif || exit 2
+export SEEDWT_HEAD=1
 LIST="$*"
 [ -z "$LIST" ] && LIST=$(ls -d seeded/C*/* | sed 's#seeded/##')
 for pv in $LIST; do
